@@ -61,6 +61,8 @@ func runC05(c *Ctx) {
 	c05R3(c, "C05.R3")
 	c05R4(c, upstreams, localUp, muF, mgr)
 	c05R5(c, upstreams, localUp)
+	// both counts are kept under the same key: the upstream's endpoint id, unchanged
+	c01R1(c)
 }
 
 func methodsOf(p *Prog, rel, typ string) []*ssa.Function {
@@ -224,7 +226,9 @@ func scanComplete(fn *ssa.Function, field *types.Var) (bool, string) {
 		neg := func(v ssa.Value) bool { k, ok := constInt(v); return ok && k == -1 }
 		zero := func(v ssa.Value) bool { k, ok := constInt(v); return ok && k == 0 }
 		found := func(facts []Fact) bool {
-			return anyFact(facts, func(f Fact) bool { return cmpFact(f, token.NEQ, isIdx, neg) || cmpFact(f, token.GEQ, isIdx, zero) || cmpFact(f, token.GTR, isIdx, neg) })
+			return anyFact(facts, func(f Fact) bool {
+				return cmpFact(f, token.NEQ, isIdx, neg) || cmpFact(f, token.GEQ, isIdx, zero) || cmpFact(f, token.GTR, isIdx, neg)
+			})
 		}
 		missing := func(facts []Fact) bool {
 			return anyFact(facts, func(f Fact) bool { return cmpFact(f, token.EQL, isIdx, neg) || cmpFact(f, token.LSS, isIdx, zero) })
@@ -446,7 +450,9 @@ func c05R2(c *Ctx) {
 		good := true
 		for _, a := range alts {
 			absent := anyFact(a, func(f Fact) bool { return f.V == okv && !f.T }) ||
-				anyFact(a, func(f Fact) bool { return cmpFact(f, token.EQL, isL, isK(0)) || cmpFact(f, token.LEQ, isL, isK(0)) || cmpFact(f, token.LSS, isL, isK(1)) })
+				anyFact(a, func(f Fact) bool {
+					return cmpFact(f, token.EQL, isL, isK(0)) || cmpFact(f, token.LEQ, isL, isK(0)) || cmpFact(f, token.LSS, isL, isK(1))
+				})
 			if !absent {
 				good = false
 			}
@@ -710,8 +716,12 @@ func c05R3(c *Ctx, rule string) {
 			return
 		}
 		facts := fs.At(cl.Block())
-		pos := anyFact(facts, func(f Fact) bool { return cmpFact(f, token.GTR, isL, isK(0)) || cmpFact(f, token.GEQ, isL, isK(1)) || cmpFact(f, token.NEQ, isL, isK(0)) })
-		nonpos := anyFact(facts, func(f Fact) bool { return cmpFact(f, token.LEQ, isL, isK(0)) || cmpFact(f, token.LSS, isL, isK(1)) || cmpFact(f, token.EQL, isL, isK(0)) })
+		pos := anyFact(facts, func(f Fact) bool {
+			return cmpFact(f, token.GTR, isL, isK(0)) || cmpFact(f, token.GEQ, isL, isK(1)) || cmpFact(f, token.NEQ, isL, isK(0))
+		})
+		nonpos := anyFact(facts, func(f Fact) bool {
+			return cmpFact(f, token.LEQ, isL, isK(0)) || cmpFact(f, token.LSS, isL, isK(1)) || cmpFact(f, token.EQL, isL, isK(0))
+		})
 		switch cl.Call.Method.Name() {
 		case "UpsertLocal":
 			ups++
